@@ -27,7 +27,7 @@ def wave_cases(draw, tier):
     lanes = draw(st.integers(1, 4 if big else 3))
     shape = draw(st.integers(0, 11))
     if shape == 0:
-        lanes = draw(st.sampled_from([31, 32, 33, 35]))        # more lanes than one mock-GPU block is wide (32)
+        lanes = draw(st.sampled_from([31, 32, 33, 35, 49, 64, 65, 70]))        # more lanes than one / two mock-GPU blocks are wide (32)
     elif shape == 1:
         nl = S.widen(nl, draw(st.integers(15, 22)), draw(st.integers(0, 999)))   # a level wider than one block is high (16), > 16 ports
     n = nl['pi'] + len(nl['st'])
@@ -77,7 +77,7 @@ def prop_wave(case):
         if owave is not None:          # a waveform written straight into the region of every captured line (timestamps in any order)
             for row in rows:
                 loc = int(s.c_locs[s.ppo_offset + row]); cap = int(s.c_caps[s.ppo_offset + row])
-                ent = [np.float32(t / W.GRID) for t in owave][:cap - 1] + [W.TMAX]
+                ent = [np.float32(t / W.GRID) for t in owave[0]][:cap - 1] + [W.TMAX_OVL if owave[1] else W.TMAX]
                 for lane in range(sims):
                     s.c[loc:loc + len(ent), lane] = ent
         if T is None: s.c_to_s()
@@ -133,7 +133,7 @@ def prop_wave(case):
     same(r0, res(s3), 'WaveSimCuda vs WaveSim')
     if actrl is not None and not np.array_equal(np.array(s3.abuf), np.array(base.abuf)):
         raise Violation(f'WaveSimCuda abuf {np.array(s3.abuf).tolist()} != WaveSim abuf {np.array(base.abuf).tolist()}')
-    ow = [40 + 7 * case['seed'], 12, 90, 33 + case['pptime'], 5][:2 + case['seed'] % 4]      # mostly not increasing
+    ow = ([40 + 7 * case['seed'], 12, 90, 33 + case['pptime'], 5][:(case['pptime'] % 5)], bool(case['seed'] & 1))      # 0-4 timestamps, mostly not increasing; either terminator
     same(res(sim(dl=d_alone, owave=ow)), res(sim(WaveSimCuda, dl=d_alone, owave=ow)), f'capture of a written waveform {ow}: WaveSim vs WaveSimCuda')
     s3b = sim(WaveSimCuda, dl=d_alone, c_reuse=True, strip_forks=sf)
     same(r0, res(s3b), f'WaveSimCuda(c_reuse, strip_forks={sf}) vs WaveSim plain')
